@@ -50,6 +50,10 @@ theorem model_no_enumerable_builtin :
     ∀ e ∈ Spec.flatten Model.table, e.2.2.attrs.e = true → e.1 = Owner.global ∧ e.2.1 = "console" := by
   decide +kernel
 
+/-- the members of the `console` object (inline.go newConsole) are all {W:true,E:false,C:true} functions -/
+theorem console_members_nonenumerable : ∀ d ∈ Model.consoleProps, d.slot.attrs = Spec.wc ∧ d.slot.val = (Spec.fn 0).val := by
+  decide +kernel
+
 /-- transfer to any table equal to the model (used with the regenerated dumps) -/
 theorem no_enumerable_of_eq (t : List (Owner × Props)) (h : t = Model.table) :
     ∀ e ∈ Spec.flatten t, e.2.2.attrs.e = true → e.1 = Owner.global ∧ e.2.1 = "console" := by
